@@ -121,7 +121,8 @@ CHECKS["C01"] = {
              "structure in [omega; v] order, the logarithm's cases are exhaustive and disjoint with index-consistent "
              "half-turn branches, the exponentials divide by theta only off the near-zero branch, and all 19 primitives "
              "have the same normal form as modern_robotics 1.1.1. The numerical identities log(exp(x)) = x, exp(log(T)) = T, "
-             "inv(T)T = I, Ad homomorphism to 5e-6 are NOT decided: they rest on the reference formulas (trusted base)."),
+             "inv(T)T = I, Ad homomorphism to 5e-6 are NOT decided: they rest on the reference formulas (trusted base)."
+             " R01.5: no rigid-motion primitive writes into an array it is given (effects summary through callees and views): the identities are statements about the caller's x, T and w."),
     "note": "Trusted: modern_robotics 1.1.1 formulas; rewrite set N1..N34; IEEE arithmetic near the 0/pi branch points is not analysed.",
 }
 
